@@ -323,7 +323,7 @@ def all_files(scen):
 def run_one(scen, files, run, log, faults=None):
     cwd = run['cwd']
     main = scen['main'] if run.get('main_abs', True) else posixpath.relpath(scen['main'], cwd)
-    fs = SimFS(files, scen['dirs'] + [cwd, '/w/out'], cwd=cwd, faults=copy.deepcopy(faults or []))
+    fs = asmsim.make_fs(files, scen['dirs'] + [cwd, '/w/out'], cwd=cwd, faults=copy.deepcopy(faults or []))
     if run['via'] == 'api':
         out = asmsim.run_api(fs, {'target': main, 'compress': run['compress'], 'include_dirs': list(scen['inc_dirs'])}, log)
         return out, fs
@@ -342,6 +342,7 @@ def run_one(scen, files, run, log, faults=None):
     return {'ok': True, 'bytes': fs.files.get('/w/out/o.bin', b'').hex(), 'labels': labels}, fs
 
 
+@asmsim.with_fallback
 def run_scenario(scen, keep_events=False):
     res = core.Result()
     log = core.EventLog(keep=300 if keep_events else 0)
